@@ -76,6 +76,22 @@ static void one_name(const char * nm, int n, int category, bool published)
     else if (category == 2 && has_prefix(nm, n, "Ta180m")) VASSERT(pub, "C05 [Ta180m without -B-/-EC suffix]: accepted but it extends no published name");
     else VASSERT(pub, "C05: an accepted name extends a published name");
   }
+  // the first scheme run is the published nuclide's own scheme (primary part of the published name)
+  if (category == 2 && pub && c05_n >= 1 && c05_seq[0] > 0) {
+    const char * best = 0; int bl = -1;
+    for (int k = 0; lst[k]; k++) if (has_prefix(nm, n, lst[k])) { int l = 0; while (lst[k][l] && lst[k][l] != '+') l++; if (l > bl) { bl = l; best = lst[k]; } }
+    const char * sn = c05_scheme_names[c05_seq[0]];
+    bool same = true;
+    if (best[0] == 'T' && best[1] == 'a' && best[2] == '1' && best[3] == '8' && best[4] == '0' && best[5] == 'm') {
+      // Ta180m-B- -> Ta180mB, Ta180m-EC -> Ta180mEC
+      same = sn[0] == 'T' && sn[5] == 'm' && ((best[7] == 'B' && sn[6] == 'B' && sn[7] == 0) || (best[7] == 'E' && sn[6] == 'E' && sn[7] == 'C'));
+    } else {
+      int i = 0;
+      for (; i < bl; i++) if (sn[i] != best[i]) same = false;
+      if (same && sn[bl] != 0) same = false;
+    }
+    VASSERT(same, "C05: a published background name runs that nuclide's own scheme first");
+  }
   VASSERT(ev2.get_generator().size() == (size_t)n, "C05: the event is labelled with the requested name");
 }
 
